@@ -19,7 +19,8 @@ theorem lineInput_wf (ls : List Line) : InputWF (lineInput ls) := by
 def finOf (f : Func) : BFunc :=
   let ls := f.lines.filter fun l => l.size > 0
   { addr := f.addr, size := f.size, psize := f.psize, name := f.name,
-    lines := ls, ltab := safeVec (lineInput ls), inls := f.inls.mergeSort inlLe }
+    lines := ls, ltab := safeVec (lineInput ls),
+    inls := (f.inls.filter fun x => x.size > 0).mergeSort inlLe }
 
 theorem finishItem_ok (f : Func) : finishItem f = .ok (finOf f) := by
   unfold finishItem finOf
